@@ -46,7 +46,17 @@ def replay(doc):
 def main(tier):
     run = Run(PROP, tier, replay)
     D, B = (2, 2) if tier == "quick" else (3, 2)
-    st = e2.explore(run, list(e2.SEEDS), D, B, trans_check=trans_check, phase_ops=True)
+    if tier == "quick":  # reports compared for every rejected call within budget 1; budget 2 with the white-box snapshot (reports are a function of it)
+        st = e2.explore(run, list(e2.SEEDS), 2, 1, trans_check=trans_check, phase_ops=True)
+        _DEEP["on"] = False
+        stb = e2.explore(run, list(e2.SEEDS), 2, 2, trans_check=trans_check, phase_ops=True)
+        _DEEP["on"] = True
+        for k in list(stb):
+            if k != "per_depth":
+                st[k] = max(st[k], stb[k]) if k in ("states",) else st[k] + stb[k]
+        st["per_depth_b2_snapshot_only"] = stb["per_depth"]
+    else:
+        st = e2.explore(run, list(e2.SEEDS), D, B, trans_check=trans_check, phase_ops=True)
     if tier != "quick":
         _DEEP["on"] = False  # beyond depth 3 only the white-box snapshot is compared (reports are a function of it)
         st2 = e2.explore(run, ["single", "mux", "rails"], 4, 1, trans_check=trans_check, phase_ops=True)
